@@ -64,6 +64,23 @@ fn one(r: &Value) -> Value {
             None => "none",
         },
         "large_mul" => opt(bigint::large_mul(&mut x, &ys)),
+        "large_add" => opt(bigint::large_add(&mut x, &ys)),
+        // the operator forms (they unwrap: an overflow is reported by a panic, which the caller of `one` records)
+        "mul_assign" => {
+            x *= &ys[..];
+            "ok"
+        },
+        "bigint_mul_assign" => {
+            let mut a = Bigint {
+                data: std::mem::replace(&mut x, VecType::new()),
+            };
+            let b = Bigint {
+                data: VecType::try_from(&ys).expect("operand fits"),
+            };
+            a *= &b;
+            x = a.data;
+            "ok"
+        },
         "pow5" => opt(bigint::pow(&mut x, n as u32)),
         "shl" => opt(bigint::shl(&mut x, n)),
         "shl_bits" => opt(bigint::shl_bits(&mut x, n)),
